@@ -1011,6 +1011,18 @@ def compile_comprehension(compiler, expr, root, parts, final):
             # Define the generator function.
             stmts = []
             ret = Result()
+            # As in a real comprehension, the iterable of a leading
+            # iteration clause belongs to the enclosing scope: evaluate
+            # it out here and pass it in.
+            lead_iter = lead_param = None
+            if parts and parts[0][0] in ("for", "afor"):
+                tag0, (target0, iter0) = parts[0]
+                ret += iter0
+                lead_iter = iter0.force_expr
+                lead_param = compiler.get_anon_var()
+                parts[0] = Tag(tag0, [target0, Result(expr=asty.Name(
+                    lead_iter, id=lead_param, ctx=ast.Load()))])
+                ret.expr = None
             assignment_names = scope.finalize()
             if scope.exposing_assignments and assignment_names:
                 # expose inner assignments to outer scope
@@ -1054,7 +1066,8 @@ def compile_comprehension(compiler, expr, root, parts, final):
                 expr,
                 name=fname,
                 args=ast.arguments(
-                    args=[],
+                    args=[asty.arg(expr, arg=lead_param, annotation=None)]
+                        if lead_param else [],
                     vararg=None,
                     kwarg=None,
                     posonlyargs=[],
@@ -1077,8 +1090,7 @@ def compile_comprehension(compiler, expr, root, parts, final):
                 v1, v2 = f"{v1}: {v2}", f"{v1}, {v2}"
             else:
                 v1 = v2 = compiler.get_anon_var()
-            return ret + Result(expr =
-                asty.parse(expr,
+            result = (asty.parse(expr,
                     f"{fname}()"
                     if node_class is asty.GeneratorExp else
                     "{}{} {} for {} in {}(){}".format(
@@ -1089,6 +1101,11 @@ def compile_comprehension(compiler, expr, root, parts, final):
                         fname,
                         brackets[1]))
                 .body[0].value)
+            if lead_iter is not None:
+                call = (result if node_class is asty.GeneratorExp
+                    else result.generators[0].iter)
+                call.args.append(lead_iter)
+            return ret + Result(expr = result)
 
         # We can produce a real comprehension.
         generators = []
